@@ -31,6 +31,8 @@ ASSUMPTIONS = ["close() is called at most once and the application does not canc
                "build_network_map=False (no _seed_network_map task)",
                "a status / receive callback does not swallow CancelledError"]
 IMPORTS = "From NV Require Import Base ClientLTS CorrClientLTS."
+MAX_POS = 160        # injection positions per base session (an unchanged client has 30-60 event-loop steps per session;
+                     # a changed one that never settles must not multiply the work by thousands)
 _CACHE = {}
 
 SHAPE_B_CONNS = [{"refuse": True}, {"refuse": True}, {"refuse": True}, {"delay": 0.2}, {"delay": 0.0, "drain": "susp"}]
@@ -90,7 +92,7 @@ def close_specs(ctx):
             for s2, m2, o2 in zip(base, bmeta, bobs):
                 if (m2["client"], m2["shape"], m2["cb"]) == (m["client"], m["shape"], PAIR[m["cb"]]) and o2.get("npos"):
                     npos = o2["npos"]
-        for at in range(0, npos + 1):
+        for at in range(0, min(npos, MAX_POS) + 1):
             sp = dict(s)
             sp["inject"] = {"at": at, "ops": [["close"]]}
             sp["exc_rot"] = ctx.seed + at       # exception class of failing connection attempts (see vloop.Gateway._failure)
